@@ -63,11 +63,18 @@ def build(chain):
 
 
 def real_run(engine, ctx, text, cap, tick_log, iterable=False):
+    r = _real_run(engine, ctx, text, cap, tick_log, iterable, 5.0)
+    if r[0] == 'timeout':
+        r = _real_run(engine, ctx, text, cap, tick_log, iterable, 45.0)       # (a busy machine can stall a short watchdog)
+    return r
+
+
+def _real_run(engine, ctx, text, cap, tick_log, iterable, timeout):
     from yaql.language import exceptions as exc
     src = c08.CountedIterable(cap) if iterable else c08.Counted(cap)
     del tick_log[:]
     signal.signal(signal.SIGALRM, c08._alarm)
-    signal.setitimer(signal.ITIMER_REAL, 5.0)
+    signal.setitimer(signal.ITIMER_REAL, timeout)
     try:
         v = engine(text).evaluate(data=src, context=ctx.create_child_context())
         return 'value', g.jv(v), src.pulls
